@@ -42,6 +42,13 @@ Theorem C06_one_advertisement_intact : forall origin name seq g path seenby,
 Proof. exact advertisement_intact. Qed.
 Print Assumptions C06_one_advertisement_intact.
 
+(** ... and a group within the bounds is not split again: what a forwarding
+    agent re-floods, or a replaying agent sends for a small origin group, is
+    that one advertisement. *)
+Theorem C06_fitting_group_is_one_advertisement : forall g, group_ok g -> split_routes g = [g].
+Proof. exact split_routes_fits. Qed.
+Print Assumptions C06_fitting_group_is_one_advertisement.
+
 (** End to end, from configured entries to the entries the neighbour's
     flooder extracts (CIDR with family and prefix length, domain pattern with
     wildcard flag, forward key and target, agent presence), in order. *)
